@@ -594,7 +594,7 @@ fn dims(thorough: bool) -> Dims {
     Dims {
       r: vec!["one", "two", "multi"],
       u: vec!["none", "direct", "all", "any", "not", "inside", "has", "chain2", "chain3", "utilvar", "ofrule"],
-      k: vec!["none", "regex", "two", "bindc"],
+      k: vec!["none", "regex", "two", "bindc", "matches"],
       t: vec!["none", "substring", "replace", "convert", "chain2", "chain3", "fromc", "indep"],
       w: vec!["none", "one", "two", "nested"],
       fc: vec!["captured", "transformed", "both"],
@@ -604,9 +604,9 @@ fn dims(thorough: bool) -> Dims {
     Dims {
       r: vec!["one", "two", "multi"],
       u: vec!["none", "direct", "all", "any", "not", "inside", "has", "chain2", "chain3", "utilvar", "ofrule"],
-      k: vec!["none", "two", "bindc"],
-      t: vec!["none", "substring", "chain2", "chain3", "fromc"],
-      w: vec!["none", "one", "nested"],
+      k: vec!["none", "two", "bindc", "matches"],
+      t: vec!["none", "chain2", "chain3", "fromc"],
+      w: vec!["none", "one", "two", "nested"],
       fc: vec!["captured", "both"],
       ff: vec!["string", "object", "object-expand-matches"],
     }
@@ -636,6 +636,9 @@ fn build_base(r: &str, u: &str, k: &str, t: &str, w: &str, fc: &str, ff: &str) -
       constraints.insert("A".into(), json!({"pattern": "bar($C)"}));
       singles.push("C");
     }
+    "matches" if r != "multi" => {
+      constraints.insert("A".into(), json!({"matches": "k-arg"}));
+    }
     _ => return None,
   }
   let arg1 = if k == "bindc" { "bar(some_name)" } else { "some_name" };
@@ -646,6 +649,9 @@ fn build_base(r: &str, u: &str, k: &str, t: &str, w: &str, fc: &str, ff: &str) -
   };
   // ---- utilities
   let mut utils = Map::new();
+  if k == "matches" {
+    utils.insert("k-arg".into(), json!({"any": [{"kind": "identifier"}, {"kind": "call_expression"}]}));
+  }
   let mut rule = json!({"pattern": pattern});
   let first_util: Option<&str>;
   match u {
@@ -1346,21 +1352,27 @@ fn main() {
   }
 
   // ---- oracle 1 over every document at distance one
-  struct Case {
-    base: usize,
-    p: Perturbed,
+  // distinct documents only: a document reachable from two bases is judged once, at the first
+  // base in enumeration order (decided sequentially, so the choice does not depend on timing).
+  // Documents are regenerated per base in the judging pass instead of being kept in memory.
+  fn doc_hash(d: &Value) -> u128 {
+    use std::hash::{Hash, Hasher};
+    let s = d.to_string();
+    let mut h1 = std::collections::hash_map::DefaultHasher::new();
+    s.hash(&mut h1);
+    let mut h2 = std::collections::hash_map::DefaultHasher::new();
+    (&s, 0x9e3779b97f4a7c15u64).hash(&mut h2);
+    ((h1.finish() as u128) << 64) | h2.finish() as u128
   }
-  let cases: Vec<Case> = bases
-    .par_iter()
-    .enumerate()
-    .flat_map_iter(|(i, b)| perturbations(b).into_iter().map(move |p| Case { base: i, p }))
-    .collect();
-  // distinct documents only
-  let mut seen = HashSet::new();
-  let cases: Vec<Case> = cases.into_iter().filter(|c| seen.insert(c.p.doc.to_string())).collect();
+  let hashes: Vec<Vec<u128>> = bases.par_iter().map(|b| perturbations(b).iter().map(|p| doc_hash(&p.doc)).collect()).collect();
+  let generated_total: u64 = hashes.iter().map(|h| h.len() as u64).sum();
+  let mut seen: HashSet<u128> = HashSet::new();
+  let keep: Vec<Vec<bool>> = hashes.iter().map(|hs| hs.iter().map(|h| seen.insert(*h)).collect()).collect();
+  let n_cases = seen.len();
   drop(seen);
+  drop(hashes);
   if debug {
-    eprintln!("{} distinct perturbed documents t={:.1}s", cases.len(), rep.elapsed());
+    eprintln!("{n_cases} distinct perturbed documents of {generated_total} generated t={:.1}s", rep.elapsed());
   }
   #[derive(Default)]
   struct KindStat {
@@ -1375,8 +1387,11 @@ fn main() {
   let errors: Mutex<BTreeMap<String, u64>> = Mutex::new(BTreeMap::new());
   let samples = Samples::new(8);
   let pending: Mutex<Vec<(String, Value)>> = Mutex::new(vec![]);
-  cases.par_iter().for_each_init(Worker::new, |w, c| {
-    let b = &bases[c.base];
+  struct Case {
+    p: Perturbed,
+  }
+  bases.par_iter().enumerate().for_each_init(Worker::new, |w, (bi, b)| {
+   for c in perturbations(b).into_iter().zip(&keep[bi]).filter(|(_, k)| **k).map(|(p, _)| Case { p }) {
     let (tags, outcome, viol) = judge_perturbed(w, &c.p.doc, &b.src, false);
     {
       let mut st = stats.lock().unwrap();
@@ -1414,6 +1429,7 @@ fn main() {
       let case = json!({"oracle": 1, "base": b.label, "perturbation": c.p.kind, "site": c.p.site, "doc": c.p.doc, "source": b.src, "detail": detail});
       pending.lock().unwrap().push((sig, case));
     }
+   }
   });
   // what running an accepted inconsistent document leads to is tried once per class, on the
   // smallest document of the class (it may kill the child), and recorded with every case of it
@@ -1473,9 +1489,10 @@ fn main() {
   }
   // samples: the first perturbed document of 8 different kinds (deterministic order)
   let mut sampled = BTreeSet::new();
-  for c in &cases {
-    if sampled.insert(c.p.kind) {
-      samples.offer(|| json!({"base": bases[c.base].label, "perturbation": c.p.kind, "site": c.p.site, "reference_says_broken": ref_vars(&c.p.doc), "doc": c.p.doc}));
+  for p in bases.iter().take(1).chain(bases.iter().rev().take(1)).flat_map(|b| perturbations(b).into_iter().map(move |p| (b, p))) {
+    let (b, p) = p;
+    if sampled.insert(p.kind) {
+      samples.offer(|| json!({"base": b.label, "perturbation": p.kind, "site": p.site, "reference_says_broken": ref_vars(&p.doc), "doc": p.doc}));
     }
   }
   let stats = stats.into_inner().unwrap();
@@ -1490,14 +1507,15 @@ fn main() {
   let tag_counts = tag_counts.into_inner().unwrap();
   let mj = matches_judged.load(Ordering::Relaxed);
   let cov = json!({
-    "evaluations": cases.len() as u64 + bases.len() as u64,
+    "evaluations": n_cases as u64 + bases.len() as u64,
     "distinct_nontrivial": judged + mj,
     "rule": "evaluations = distinct perturbed documents loaded + base documents loaded and run. distinct_nontrivial = distinct perturbed documents for which the reference analysis reports at least one broken condition (so a rejection was demanded) + matches of base documents whose fix text and message were compared with the reference expansion",
     "exhaustive": true,
     "base_documents": bases.len(),
     "base_matches_judged": mj,
     "base_documents_with_transform": bases_with_transformed.load(Ordering::Relaxed),
-    "perturbed_documents_distinct": cases.len(),
+    "perturbed_documents_generated": generated_total,
+    "perturbed_documents_distinct": n_cases,
     "perturbed_reference_says_broken": judged,
     "perturbed_still_valid_counted_not_judged": still_valid,
     "per_perturbation_kind": per_kind,
@@ -1516,6 +1534,8 @@ fn main() {
       "cycles through inside/has/precedes/follows are not generated (the statement does not require their rejection)".into(),
       "all base sources are single-line and the match starts at column 0, so indentation handling of the replacer plays no part; `$$NAME` and arity-mismatched spellings (`$ARGS` for a `$$$ARGS` capture) are not in the alphabet".into(),
       "text produced by rewriters is taken from the environment as the transformed value; the rewriters' own fix expansion is not judged".into(),
+      "perturbed documents reachable from several bases are judged once; equality of documents is decided by a 128-bit hash of their text".into(),
+      "what running an accepted inconsistent document leads to (e.g. a stack overflow) is tried once per violation class and perturbation site, for the record only; the verdict is the acceptance itself".into(),
       "all ast-grep calls run in child processes; dev profile (debug assertions on), opt-level 1".into(),
     ],
   );
